@@ -120,6 +120,20 @@ def shared (h : Heap) (a b : Addr) : Sexp :=
   let lbls := (ra.filter rb.contains).map (cellLabel h)
   list ((lbls.foldl (fun acc s => insertSorted s acc) []).map str)
 
+/-- owner of the unit the parent's table entry for `name(o)` is linked to -/
+def regOwner (h : Heap) (o : Addr) : Sexp :=
+  match h.get o with
+  | some (.unit _ name (some p) _ _ _) =>
+    match tabOf h p with
+    | some t =>
+      match alookup name.toLower (entsOf h t) with
+      | some ty => match ty.proc with
+        | some u => optS (h.tagOf u)
+        | none => atom "none"
+      | none => atom "none"
+    | none => atom "none"
+  | _ => atom "none"
+
 def snap (h : Heap) (o c : Addr) : Sexp :=
   let f := h.size + 2
   list [atom "snap", list ((render f h o).map encOut), list (unitTags f h o),
